@@ -36,8 +36,8 @@ func main() {
 				}
 				return tags
 			}
-			nv := x.Run.Count(900, 60000)
-			nm := x.Run.Count(500, 60000)
+			nv := x.Run.Count(900, 40000)
+			nm := x.Run.Count(500, 30000)
 			x.RandomStreams(8, nv, nm, nil, []string{
 				"alert", "rsv", "rsv", "barely-valid", "l4", "dsthost", "srchost", "ingress", "mac", "segid",
 				"peerflag", "consdir", "currhf", "consegress"})
